@@ -1071,6 +1071,13 @@ func scTransfer(d *Driver) {
 	d.pipeline(l.ID)
 	p := calm
 	p.Tick, p.Propose = 25, 4
+	if hold && pct(d.r, 70) {
+		// the transfer is given up after an election timeout; the order to take over is still under way
+		for k := 0; k < 7; k++ {
+			d.c.Do(Step{Act: "Tick", Node: l.ID})
+			d.with(calm, 3)
+		}
+	}
 	d.with(p, 20+d.r.Intn(60))
 	if n := d.c.up(l.ID); n != nil && pct(d.r, 70) {
 		d.propose(n, 1+d.r.Intn(2), false)
